@@ -127,6 +127,8 @@ def _worker(args):
     try:
         check = load_check(prop_id)
         findings = load_findings(prop_id)
+        if hasattr(check, 'setup_worker'):
+            check.setup_worker(mode, shard, extra)
         if mode == 'enum':
             scope = extra
             for index, case in enumerate(check.enumerate_cases(tier, scope)):
